@@ -23,7 +23,7 @@ claim(
 )
 
 claim(
-    'C01', 'other', 'guard dominance over check+apply paths; exact symbolic matrix identities (linear-form interpretation + polynomial normal form); table agreement; driver structure',
+    'C01', 'other', 'guard dominance over check+apply paths; exact symbolic matrix identities (linear-form interpretation + polynomial normal form); table agreement; driver structure; abstract execution (syntax-tree evaluator, nothing run) of the reduction driver on chains of opaque operators, of the block-product rules on all class pairs / containers, of the P^T P rule and of IndexOperator.reduce on all index expressions of <= 3 entries',
     'Per-rule soundness and driver structure, decided from source: every deletion rule is dominated by a pair-identity (or crosswise '
     'parameter-equality) guard plus its frozen side condition (unique_indices for P P^T); the rotation/HWP/polariser rules are proved as '
     'Mueller-matrix identities for all angles and all four Stokes kinds with matrices derived from the mv source of the same tree; block rules '
@@ -37,7 +37,7 @@ claim(
 )
 
 claim(
-    'C02', 'other', 'path enumeration with guard facts over every arithmetic dunder; operand-role, operand-order and scalar-form term rules',
+    'C02', 'other', 'path enumeration with guard facts over every arithmetic dunder; operand-role, operand-order and scalar-form term rules; abstract evaluation of k*A, A*k, A/k, -A (symbolic scalars) and of L @ R on 484 operand pairs compared in the free group of opaque operators',
     'Every path of every arithmetic dunder of the operator classes: a path that returns an operator is dominated by the structure guard with '
     'the right operand roles (IN(self) vs OUT(other) for @, mirrored for the reflected form, IN-IN and OUT-OUT for sums), or delegates to a dunder '
     'that is, or sits under an operand-identity guard; operand lists are in product order and contain every operand once; NotImplemented '
@@ -49,7 +49,7 @@ claim(
 )
 
 claim(
-    'C04', 'other', 'abstract interpretation of every mv over a kind/linearity lattice (whitelisted linear primitives); schema matching of as_matrix overrides',
+    'C04', 'other', 'abstract interpretation of every mv over a kind/linearity lattice (whitelisted linear primitives); schema matching of as_matrix overrides; per-class abstract evaluation of the dense forms of the lazy operators; Toeplitz dense-builder / kernel-bound obligations shared with C09',
     'Linearity is decided for all inputs and parameters: each of the concrete mv methods (with the helpers, kernels and closures they reach, '
     'fori_loop carries by fixpoint, reduce without initializer modelled faithfully) evaluates to a pytree of arrays linear in the input - no added '
     'constant, no product of input-dependent values, no non-linear primitive, no non-array leaf, no truncating cast. Every as_matrix override is '
@@ -60,7 +60,7 @@ claim(
 )
 
 claim(
-    'C15', 'proof', 'exact linear-form interpretation of the mv sources + trigonometric polynomial normal form (no execution, no solver)',
+    'C15', 'proof', 'exact linear-form interpretation of the mv sources, factories and rewrite rules (distinct and shared angle arrays) + trigonometric polynomial normal form (no execution, no solver); `@` compared in the free group of opaque operators (C02)',
     'All Mueller matrices are derived from source for symbolic angles and compared with the stated ones for each of the four Stokes kinds: '
     'H = diag(+,+,-,-), R(a) rotates (Q,U) by 2a, R^T = R(-a) = transpose, P = (I+Q)/2 restricted; R(a)R(b) = R(a+b), R^T R = I, R(a)H = H R(-a), '
     'P H = P; the three factories equal R(-a) H R(a), P R(a), R(a) on one structure of the requested kind. Exact arithmetic, all angles at once.',
@@ -82,7 +82,7 @@ claim(
 )
 
 claim(
-    'C05', 'other', 'override inventory justified by derived kinds/guards; value-flow dtype rule over abstractly interpreted mv/as_matrix; definite-assignment + escape analysis of constructors; structure-guard dominance over the arithmetic dunders; strict-variant guard decided by axis-provenance interpretation',
+    'C05', 'other', 'override inventory justified by derived kinds/guards; value-flow dtype rule over abstractly interpreted mv/as_matrix; definite-assignment + escape analysis of constructors; structure-guard dominance over the arithmetic dunders; strict-variant guard decided by axis-provenance interpretation; abstract evaluation of the block row / column constructors and of the block-product and P^T P rules (shared with C10 / C01)',
     'out_structure defaults to the abstract evaluation of mv (honest by construction); every class overriding it is justified: the 8 square classes by a '
     'derived structure-preserving mv or constructor guard, the written accessors of composites by agreement with the order in which mv applies the '
     'parts. Every array creation on a result path carries a data-derived dtype (never none, never a Python builtin type), so the result dtype does not '
@@ -128,7 +128,7 @@ claim(
 )
 
 claim(
-    'C09', 'other', 'dispatch-table exhaustiveness; guard extraction; abstract interpretation of each kernel (linearity + trace taint); symbolic length domain with ceiling-division axioms (slice bounds at the last block, coverage of the returned samples by the block loop); dtype/size-site rules',
+    'C09', 'other', 'dispatch-table exhaustiveness; guard extraction; abstract interpretation of each kernel (linearity + trace taint); symbolic length domain with ceiling-division axioms (slice bounds at the last block, coverage of the returned samples by the block loop); dtype/size-site rules; dependency analysis of values stored in module-level containers (key must cover every field read, through methods / bound methods / table-driven getattr)',
     'STRUCTURAL NECESSARY CONDITIONS ONLY: METHODS <-> dispatch branches <-> existing kernels; illegal method / fft_size refused before any store; each '
     'live kernel linear in x with the band values constant and trace-safe; vectorize signature (n),(k)->(n) with (x, band_values); band count from the '
     'last axis of the band values; every buffer with a data-derived dtype; [h:-h] slices guarded against h == 0; irfft given its length; as_matrix and '
@@ -138,7 +138,7 @@ claim(
 )
 
 claim(
-    'C10', 'other', 'kind inference of the block mv (incl. arity one); accessor/transposition/dense schemas; constructor-guard extraction; block-rule table',
+    'C10', 'other', 'kind inference of the block mv (incl. arity one); accessor/transposition/dense schemas; constructor-guard extraction; block-rule table; abstract evaluation of the constructors (shared structure differing by shape or dtype) and of the reduction driver on all 9 class pairs x list/tuple/dict/misaligned containers',
     'Row sums block(leaf) over all pairs, diagonal applies leaf-wise, column applies every block to the same input - linear for every container arity; '
     'structures, transposes (row <-> column of transposed blocks), block-wise inverse under the all-square guard, hstack / block_diag / vstack over '
     'block_leaves; constructors refuse blocks whose shared structure (pytree, shapes, dtypes) differs from the first block\'s; product rules follow '
@@ -158,7 +158,7 @@ claim(
 )
 
 claim(
-    'C12', 'other', 'kind inference (Select); abstract interpretation of constructor + index accessor over all index expressions of <= 3 entries; definite-assignment/escape analysis of the constructor; guard facts for the uniqueness flag; rule soundness reused from C01',
+    'C12', 'other', 'kind inference (Select); abstract interpretation of constructor + index accessor over all index expressions of <= 3 entries; definite-assignment/escape analysis of the constructor; guard facts for the uniqueness flag; rule soundness reused from C01 (P^T P rule and reduce() evaluated on all index expressions of <= 3 entries)',
     'Both mv are pure selections (each output element is one input element), so the generic transpose is the scatter-add adjoint; the index operator '
     'is constructible with and without output structure, refuses masks without output structure and several ellipses; unique_indices is forced true '
     'only for int/slice/ellipsis/boolean-array indices; P P^T deleted only under identity + uniqueness, pack pack^T under identity, P^T P -> '
